@@ -26,6 +26,7 @@ import (
 	"encoding/hex"
 	"encoding/json"
 	"errors"
+	"flag"
 	"fmt"
 	"os"
 	"sort"
@@ -151,6 +152,9 @@ func runOnce(c ccase, tail []byte, attempt int) (res batch.Result, again bool) {
 	}
 	res.Count("streams", 1)
 	res.Count("streams_at_"+c.Cut, 1)
+	if c.Expect != nil && len(c.Tail) < 200 && (len(c.Tail)+len(c.Desc))%97 == 0 {
+		res.Sample = map[string]any{"stream": c, "bio_rd_notifications": sess2.NotifText(s), "closed": closed}
+	}
 	outcome := "open"
 	if closed {
 		outcome = "closed:" + sess2.NotifText(s)
@@ -186,7 +190,11 @@ func runOnce(c ccase, tail []byte, attempt int) (res batch.Result, again bool) {
 			got = "accepted-silently"
 		}
 		if got != "" {
-			res.Add("notification", feat("family", e.Family, "class", e.Class, "got", got),
+			f := feat("family", e.Family, "class", e.Class, "got", got)
+			if e.Family == "update" {
+				f = feat("family", e.Family, "class", e.Class) // what bio-rd did instead is in the detail
+			}
+			res.Add("notification", f,
 				"%s: the only defect is %s/%s, RFC 4271 §6 asks for NOTIFICATION %s and a closed connection; bio-rd wrote NOTIFICATIONs [%s], connection closed: %v, state afterwards %s; stream %s",
 				where, e.Family, e.Class, allowedText(e.Allowed), sess2.NotifText(s), closed, s.State(), c.Tail)
 		}
@@ -201,8 +209,8 @@ func runOnce(c ccase, tail []byte, attempt int) (res batch.Result, again bool) {
 
 	// (b) not wedged: the attacked FSM still takes an administrative stop, or is gone with its connection closed
 	if !s.Conn.IsClosed() {
-		err := s.Event(server.ManualStop, 2*time.Second)
-		if !s.Conn.WaitClosed(2 * time.Second) {
+		err := s.Event(server.ManualStop, 5*time.Second)
+		if !s.Conn.WaitClosed(10 * time.Second) {
 			res.Add("wedged", feat("gen", c.Gen, "cut", c.Cut), "%s: after the stream the FSM (state %s) does not close its connection on ManualStop (event accepted: %v)", where, s.State(), err == nil)
 			return
 		}
@@ -216,6 +224,38 @@ func runOnce(c ccase, tail []byte, attempt int) (res batch.Result, again bool) {
 	res.Count("reconnects", 1)
 	sess2.Teardown(s2)
 	return
+}
+
+// replayOne runs one recorded stream. Which goroutine of bio-rd panics first on a stream of several
+// messages depends on the schedule (receiver goroutine on the next header, FSM goroutine on the previous
+// UPDATE, update sender of the canary), so a process-fatal event is reported under the site recorded in the
+// replay file: the claim that is reproduced is "this stream kills the process".
+func replayOne(r *vf.Run, cfg batch.Config, raw json.RawMessage) {
+	recorded := ""
+	if fl := flag.Lookup("replay"); fl != nil {
+		if b, err := os.ReadFile(fl.Value.String()); err == nil {
+			var f struct {
+				Clause   string            `json:"clause"`
+				Features map[string]string `json:"features"`
+			}
+			if json.Unmarshal(b, &f) == nil && (f.Clause == "crash" || f.Clause == "hang") {
+				recorded = f.Features["where"]
+			}
+		}
+	}
+	out := batch.Run(cfg, []json.RawMessage{raw})
+	for _, res := range out.Results {
+		for _, f := range res.Findings {
+			r.Violate(vf.Violation{Clause: f.Clause, Features: f.Features, Detail: f.Detail, Case: raw})
+		}
+	}
+	for _, f := range out.Fatals {
+		where := f.Where
+		if recorded != "" {
+			where = recorded
+		}
+		r.Violate(vf.Violation{Clause: f.Kind, Features: vf.F("where", where), Detail: fmt.Sprintf("%s (at %s in this run)\n%s", f.Panic, f.Where, f.Log), Case: raw})
+	}
 }
 
 func main() {
@@ -251,7 +291,12 @@ func main() {
 			r.Eval(len(cs))
 			r.Set("streams_by_generator", byGen)
 		}
-		batch.Drive(r, batch.Config{Name: "c21", PerChild: 150, Workers: 1, Lanes: 8}, cases, nil)
+		cfg := batch.Config{Name: "c21", PerChild: 150, Workers: 1, Lanes: 8}
+		if _, ok := r.Replaying(); ok {
+			replayOne(r, cfg, cases[0].(json.RawMessage))
+		} else {
+			batch.Drive(r, cfg, cases, nil)
+		}
 		if _, ok := r.Replaying(); !ok {
 			r.Require("streams", int64(r.N(3000, 50000)))
 			r.Require("single_defect_streams", 300)
